@@ -58,3 +58,20 @@ void impure(Rec& r) { if (r.a > 3) { r.b = 0; } }                               
 
 // ---- finite-domain evaluator
 unsigned fd_expr(unsigned h) { return (h == 0) ? 1u : (h & 3u); }
+
+// ---- G-SYM (term evaluator): spellings that must coincide, and changes that must not
+struct Hs { Hs& operator<<(int); Hs& operator<<(unsigned char); int fin(); };
+struct Tx { std::vector<int> vin; int ver; };
+int sym_inline(const Tx& t, int k) { Hs h; h << t.ver << (unsigned char)k; return h.fin(); }
+static void sym_tail(Hs& h, int k) { h << (unsigned char)k; }
+int sym_helper(const Tx& t, int k) { Hs h; h << t.ver; const int kk = k; sym_tail(h, kk); return h.fin(); }     // same term as sym_inline
+int sym_swapped(const Tx& t, int k) { Hs h; h << (unsigned char)k << t.ver; return h.fin(); }                  // different term
+int sym_widened(const Tx& t, int k) { Hs h; h << t.ver << k; return h.fin(); }                                  // same values, different type: different term
+int sym_range(const Tx& t) { Hs h; for (const auto& x : t.vin) h << x; return h.fin(); }
+int sym_index(const Tx& t) { Hs h; for (size_t i = 0; i < t.vin.size(); ++i) { h << t.vin[i]; } return h.fin(); }   // same term as sym_range
+int sym_cond_if(int a, int b, bool c) { int r; if (c) r = a; else r = b; return r + 1; }
+int sym_cond_q(int a, int b, bool c) { return 1 + (c ? a : b); }                                                // same outcomes as sym_cond_if
+bool sym_acc(const Tx& t) { bool any = false; for (size_t i = 0; i < t.vin.size(); ++i) any |= (t.vin[i] != 0); return any; }    // accumulates: refers to prev
+bool sym_last(const Tx& t) { bool any = false; for (size_t i = 0; i < t.vin.size(); ++i) any = (t.vin[i] != 0); return any; }    // overwrites: no prev
+int sym_off_a(const unsigned char* p, int i) { return p[33 + 32 * i]; }
+int sym_off_b(const unsigned char* p, int i) { const int o = 32 * i; return *(p + o + 33); }                    // same location
